@@ -38,14 +38,20 @@ type iOp struct {
 	cbp, mbf        bool
 	tok, short, dup bool
 	zero            bool // explicit InterestLifetime of 0: the Interest expires the moment it arrives
-	label           string
+	// tokLen: length of the PIT token the downstream supplies (with tok; 0 = the 2-byte default).
+	// A downstream chooses its own format: 1 byte, 6 bytes that LOOK like a token of this forwarder
+	// (another YaNFD downstream), 8 bytes (NDN-DPDK), 32 bytes (the NDNLPv2 maximum)
+	tokLen int
+	label  string
 }
 
 type dOp struct {
 	face  uint64
 	name  string
-	fresh bool   // FreshnessPeriod 1 s (else absent)
-	tok   string // none | echo0 | echo1 | foreign | four
+	fresh bool // FreshnessPeriod 1 s (else absent)
+	// none | empty | echo0 | echo1 | echoGone | foreign | four | wrongthread | len<N> | echo0+<k> | echo0-<k>
+	// (see inst.dataToken)
+	tok   string
 	label string
 }
 
@@ -121,7 +127,7 @@ var (
 var slices = map[string]slice{
 	// all four names, both match rules, three faces, name- and token-addressed Data
 	"names": {
-		inames: []string{"/a", "/a/b", "/a/b/c"}, ifaces: []uint64{fwsim.L1, fwsim.N3}, shapes: []string{"", "cbp"},
+		inames: []string{"/", "/a", "/a/b", "/a/b/c"}, ifaces: []uint64{fwsim.L1, fwsim.N3}, shapes: []string{"", "cbp"},
 		iextra: []iOp{{face: fwsim.L1, name: "/localhost/x"}, {face: fwsim.N3, name: "/localhost/x"}, {face: fwsim.L5, name: "/localhost/x", cbp: true}, {face: fwsim.N2, name: "/a/b", cbp: true}},
 		dnames: []string{"/a", "/a/b", "/a/b/c", "/localhost/x"}, dfaces: []uint64{fwsim.N2, fwsim.L1}, dtoks: []string{"none", "echo0"}, dfresh: []bool{false},
 		tops: []tOp{t100, t5s},
@@ -142,10 +148,36 @@ var slices = map[string]slice{
 	// freshness of the Data, cache hits
 	"flags": {
 		inames: []string{"/a", "/a/b"}, ifaces: []uint64{fwsim.L1, fwsim.N3}, shapes: []string{"", "cbp", "mbf", "cbp+mbf"},
-		iextra: []iOp{{face: fwsim.A6, name: "/a"}, {face: fwsim.A6, name: "/a", cbp: true}, {face: fwsim.L1, name: "/a", mbf: true, tok: true}},
+		iextra: []iOp{{face: fwsim.A6, name: "/a"}, {face: fwsim.A6, name: "/a", cbp: true}, {face: fwsim.L1, name: "/a", mbf: true, tok: true},
+			{face: fwsim.N3, name: "/", cbp: true}, {face: fwsim.L1, name: "/", cbp: true, mbf: true}},
 		dnames: []string{"/a", "/a/b"}, dfaces: []uint64{fwsim.N2}, dtoks: []string{"none", "echo0"}, dfresh: []bool{false, true},
 		dextra: []dOp{{face: fwsim.A6, name: "/a"}, {face: fwsim.A6, name: "/a/b"}},
 		tops:   []tOp{t100, t600},
+	},
+	// PIT token SHAPES, both directions. Data: absent, empty, every length 1..8 and 32 with fixed
+	// bytes, 6 bytes of this forwarder's format (never issued / naming another thread / naming no
+	// thread), and the token of a live entry extended to 7, 8, 32 bytes or cut to 5, 4 bytes - only the
+	// exact 6-byte echo is "the token this forwarder attached", every other length is "no token in this
+	// forwarder's format" and the name rule applies. Interests: downstream tokens of 1, 2, 6 (looking
+	// like one of ours), 8 and 32 bytes, which the Data copy must carry back unchanged.
+	"tokshape": {
+		iextra: []iOp{{face: fwsim.L1, name: "/a"}, {face: fwsim.N3, name: "/a", tok: true, tokLen: 6}, {face: fwsim.N4, name: "/a", cbp: true, tok: true, tokLen: 8},
+			{face: fwsim.N3, name: "/a/b", tok: true, tokLen: 32}, {face: fwsim.L1, name: "/a/b", cbp: true, tok: true, tokLen: 1}},
+		dnames: []string{"/a", "/a/b"}, dfaces: []uint64{fwsim.N2}, dfresh: []bool{false},
+		dtoks: []string{"none", "empty", "len1", "len2", "len3", "four", "len5", "foreign", "len6", "wrongthread", "echo0",
+			"len7", "len8", "len32", "echo0+1", "echo0+2", "echo0+26", "echo0-1", "echo0-2"},
+		tops: []tOp{t100},
+	},
+	// the ROOT of the name tree: the zero-component name "/" is a legal Interest name; with
+	// CanBePrefix it is extended by every Data name (also /localhost names: scope), without it only
+	// Data named "/" matches; next to it a one-component name, both match rules, Data by name and by
+	// token, a MustBeFresh twin on the root node (multi-match branch), expiry
+	"root": {
+		inames: []string{"/", "/a"}, ifaces: []uint64{fwsim.L1, fwsim.N3}, shapes: []string{"", "cbp"},
+		iextra: []iOp{{face: fwsim.N4, name: "/", cbp: true, mbf: true}, {face: fwsim.L1, name: "/", cbp: true, tok: true}},
+		dnames: []string{"/a", "/a/b"}, dfaces: []uint64{fwsim.N2}, dtoks: []string{"none", "echo0"}, dfresh: []bool{false},
+		dextra: []dOp{{face: fwsim.N2, name: "/"}, {face: fwsim.L1, name: "/localhost/x"}, {face: fwsim.N2, name: "/a", tok: "echo1"}, {face: fwsim.N2, name: "/a", tok: "len8"}},
+		tops:   []tOp{t100, t5s},
 	},
 	// lifetimes, expiry with and without the reaper having run, retransmissions with fresh and
 	// with repeated nonces (loop detection, dead nonce list)
@@ -183,6 +215,7 @@ var slices = map[string]slice{
 		inames: []string{"/a", "/a/b"}, ifaces: []uint64{fwsim.L1, fwsim.N3}, shapes: []string{"", "mbf", "cbp"},
 		dnames: []string{"/a", "/a/b", "/a/b/c"}, dfaces: []uint64{fwsim.N2}, dtoks: []string{"none"}, dfresh: []bool{false, true},
 		dextra: []dOp{{face: fwsim.N2, name: "/a/b", tok: "echo0"}},
+		iextra: []iOp{{face: fwsim.N3, name: "/", cbp: true}, {face: fwsim.L1, name: "/", cbp: true, mbf: true}},
 		tops:   []tOp{t100, t600},
 	},
 	// scale: k = 101 / 250 Interests with distinct names and the short lifetime arrive from one face
@@ -201,6 +234,7 @@ var slices = map[string]slice{
 		dnames: []string{"/a", "/a/b"}, dfaces: []uint64{fwsim.N2, fwsim.N3}, dtoks: []string{"none", "echo0"}, dfresh: []bool{false},
 		// late Data echoing the token of an Interest whose entry has already expired
 		dextra: []dOp{{face: fwsim.N2, name: "/a", tok: "echoGone"}, {face: fwsim.N2, name: "/a/b", tok: "echoGone"}},
+		iextra: []iOp{{face: fwsim.N3, name: "/", cbp: true, short: true}, {face: fwsim.L1, name: "/", cbp: true}},
 		tops:   []tOp{t100, t600, t5s, a600},
 	},
 }
@@ -256,7 +290,9 @@ func (s slice) ops() (names []string, defs map[string]opDef) {
 		if o.mbf {
 			fl = append(fl, "mbf")
 		}
-		if o.tok {
+		if o.tok && o.tokLen > 0 {
+			fl = append(fl, fmt.Sprintf("tok%d", o.tokLen))
+		} else if o.tok {
 			fl = append(fl, "tok")
 		}
 		if o.short {
@@ -311,6 +347,15 @@ func (s slice) ops() (names []string, defs map[string]opDef) {
 							o.dup = true
 						case "zero":
 							o.zero = true
+						default:
+							var n int
+							if _, err := fmt.Sscanf(x, "tok%d", &n); err != nil || n < 1 || n > 32 {
+								if x != "" {
+									report.Fatal("unknown Interest shape %q", x)
+								}
+							} else {
+								o.tok, o.tokLen = true, n
+							}
 						}
 					}
 					addI(o)
@@ -428,6 +473,15 @@ func build(cfgName string) explore.System {
 		}
 	}
 	s.names, s.defs = slc.ops()
+	hasRoot := false
+	for _, d := range s.defs {
+		if d.i != nil && d.i.name == "/" {
+			hasRoot = true
+		}
+	}
+	if hasRoot && t1 {
+		report.Fatal("config %q: the root name is dispatched by hash, not renamed for thread 1", cfgName)
+	}
 	routine := map[string]bool{}
 	for _, n := range slc.routine {
 		if _, ok := s.defs[n]; !ok {
@@ -445,6 +499,11 @@ func build(cfgName string) explore.System {
 			{Prefix: nameA, Face: fwsim.N2, Cost: 1}, {Prefix: nameA, Face: fwsim.N3, Cost: 2},
 			{Prefix: "/localhost", Face: fwsim.L5, Cost: 1},
 		},
+	}
+	if hasRoot {
+		// a default route, so that Interests for "/" are forwarded (and their tokens can be echoed);
+		// longest-prefix match keeps it away from every other name of the universe
+		s.cfg.Routes = append(s.cfg.Routes, fwsim.Route{Prefix: "/", Face: fwsim.N2, Cost: 7})
 	}
 	if t1 {
 		s.cfg.ThreadID = 1
@@ -526,10 +585,7 @@ func (s *sys) Ops(i any) []explore.Op {
 			}
 		}
 		if d.d != nil {
-			if d.d.tok == "echo0" && len(in.live) < 1 {
-				continue
-			}
-			if d.d.tok == "echo1" && len(in.live) < 2 {
+			if len(in.live) < needsLive(d.d.tok) {
 				continue
 			}
 			if d.d.tok == "echoGone" && len(in.gone) < 1 {
@@ -547,12 +603,93 @@ func (s *sys) Apply(i any, op explore.Op) []report.Violation {
 
 func (s *sys) Do(i any, op explore.Op) { s.step(i.(*inst), op, false) }
 
-func tokenOf(face uint64, alt bool) []byte {
-	// downstream tokens are chosen by the downstream node: distinct per face, not 6 bytes long
-	if alt {
-		return []byte{0xA0 | byte(face), 0x77, 0x01}
+// tokenOf: the PIT token a downstream face supplies with its Interests. Downstream tokens are
+// chosen by the downstream node: distinct per face, any length 1..32. n = 0 is the 2-byte default.
+// With n = 6 the token LOOKS like one of this forwarder's (thread id of the driven thread, then four
+// bytes): the downstream is another forwarder of the same kind.
+func tokenOf(face uint64, n int, thread int) []byte {
+	switch n {
+	case 0:
+		return []byte{0xD0 | byte(face), 0x01}
+	case 6:
+		return fwsim.MakeToken(uint16(thread), 0x5A5A5A00|uint32(face))
 	}
-	return []byte{0xD0 | byte(face), 0x01}
+	b := make([]byte, n)
+	b[0] = 0xD0 | byte(face)
+	for i := 1; i < n; i++ {
+		b[i] = byte(0x20 + i)
+	}
+	return b
+}
+
+// dataToken: the PIT token an arriving Data carries. The property distinguishes three classes: a
+// token this forwarder attached (echo*), a token in this forwarder's format that it never attached
+// (foreign, wrongthread), and everything that is not in this forwarder's format - absent, empty, or
+// of any length other than 6 - for which the name rule applies.
+//
+//	none         no PIT token field
+//	empty        a PIT token field of length 0 (only the real link service can tell it from none)
+//	echo0|echo1  the token attached to the 1st / 2nd live entry; echoGone: to an entry that is gone
+//	foreign      6 bytes naming the driven thread and an entry token that was never issued
+//	wrongthread  6 bytes: the entry token of the 1st live entry under ANOTHER thread id
+//	four         4 bytes (kept from the first alphabet)
+//	len<N>       N fixed bytes (N = 6: names a thread that does not exist)
+//	echo0+<k>    the token of the 1st live entry followed by k more bytes (7, 8, 32 bytes in all): NOT
+//	             an echo - it is not in this forwarder's format
+//	echo0-<k>    the token of the 1st live entry without its last k bytes
+func (in *inst) dataToken(tok string) []byte {
+	var n int
+	switch {
+	case tok == "none" || tok == "":
+		return nil
+	case tok == "empty":
+		return []byte{}
+	case tok == "echo0":
+		return in.sim.Token(in.live[0].tok)
+	case tok == "echo1":
+		return in.sim.Token(in.live[1].tok)
+	case tok == "echoGone":
+		// a token this forwarder did attach, to an Interest whose PIT entry is gone by now
+		return in.sim.Token(in.gone[len(in.gone)-1])
+	case tok == "foreign":
+		return in.sim.Token(0xFFFFFFF1)
+	case tok == "wrongthread":
+		return fwsim.MakeToken(uint16(in.sim.ThreadID()+5), in.live[0].tok)
+	case tok == "four":
+		return []byte{0xde, 0xad, 0xbe, 0xef}
+	case scan(tok, "len%d", &n) && n >= 1 && n <= 32:
+		b := []byte{0xde, 0xad, 0xbe, 0xef}
+		for i := 4; i < n; i++ {
+			b = append(b, byte(0x10+i))
+		}
+		return b[:n]
+	case scan(tok, "echo0+%d", &n) && n >= 1 && n <= 26:
+		b := in.sim.Token(in.live[0].tok)
+		for i := 0; i < n; i++ {
+			b = append(b, byte(0x31+i))
+		}
+		return b
+	case scan(tok, "echo0-%d", &n) && n >= 1 && n <= 5:
+		return in.sim.Token(in.live[0].tok)[:6-n]
+	}
+	report.Fatal("unknown Data token shape %q", tok)
+	return nil
+}
+
+func scan(s, format string, n *int) bool {
+	_, err := fmt.Sscanf(s, format, n)
+	return err == nil
+}
+
+// needsLive: number of live issued tokens a Data token shape needs.
+func needsLive(tok string) int {
+	switch {
+	case tok == "echo1":
+		return 2
+	case tok == "wrongthread" || strings.HasPrefix(tok, "echo0"):
+		return 1
+	}
+	return 0
 }
 
 func (s *sys) step(in *inst, op explore.Op, check bool) (v []report.Violation) {
@@ -598,7 +735,7 @@ func (s *sys) step(in *inst, op explore.Op, check bool) (v []report.Violation) {
 		}
 		var lp fwsim.LP
 		if o.tok {
-			lp.PitToken = tokenOf(o.face, false)
+			lp.PitToken = tokenOf(o.face, o.tokLen, in.sim.ThreadID())
 		}
 		sends := in.sim.Interest(o.face, is, lp)
 		stepSends = sends
@@ -611,21 +748,15 @@ func (s *sys) step(in *inst, op explore.Op, check bool) (v []report.Violation) {
 			ds.Freshness = fwsim.Dur(time.Second)
 		}
 		var lp fwsim.LP
-		switch o.tok {
-		case "echo0":
-			lp.PitToken = in.sim.Token(in.live[0].tok)
-		case "echo1":
-			lp.PitToken = in.sim.Token(in.live[1].tok)
-		case "echoGone":
-			// a token this forwarder did attach, to an Interest whose PIT entry is gone by now
-			lp.PitToken = in.sim.Token(in.gone[len(in.gone)-1])
-		case "foreign":
-			lp.PitToken = in.sim.Token(0xFFFFFFF1)
-		case "four":
-			lp.PitToken = []byte{0xde, 0xad, 0xbe, 0xef}
-		}
+		lp.PitToken = in.dataToken(o.tok)
 		wire := fwsim.MakeData(ds)
-		sends := in.sim.Inject(o.face, wire, lp)
+		var sends []fwsim.Send
+		if o.tok == "empty" && s.cfg.RealLinkService {
+			// a PitToken field of length zero exists only on the wire: the real link service decodes it
+			sends = in.sim.InjectFrame(o.face, fwsim.EncodeFrameToken(wire, []byte{}))
+		} else {
+			sends = in.sim.Inject(o.face, wire, lp)
+		}
 		stepSends = sends
 		in.refresh()
 		v = in.ref.onData(in, o.face, o.name, lp.PitToken, wire, sends, now, false)
@@ -875,6 +1006,11 @@ func configs(th bool) (c []explore.Config) {
 		// faces (what a face was handed is read when it serialises its queue, at the next clock step):
 		// small alphabets first, what they leave of their share of the budget goes to the others
 		add("burst", "br", "cs0", "tree", 3)
+		// token shapes (both directions) and the root name: small alphabets, both strategies
+		add("tokshape", "br", "cs1", "tree", 4)
+		add("tokshape", "mc", "cs0", "ht link", 3)
+		add("root", "mc", "cs1", "tree", 4)
+		add("root", "br", "cs0", "ht", 4)
 		add("core", "br", "cs1", "tree defer", 5)
 		add("tokens", "mc", "cs0", "ht defer", 4)
 		// quick: every slice to depth 4; the eight {strategy} x {cache} x {FIB} combinations are
@@ -933,6 +1069,18 @@ func configs(th bool) (c []explore.Config) {
 		add("time", st, "cs0", "ht late", 5)
 	}
 	add("burst", "mc", "cs1", "ht", 3)
+	// token shapes and the root name x strategy x cache x FIB x arrival path
+	for _, st := range []string{"br", "mc"} {
+		for _, cs := range []string{"cs1", "cs0"} {
+			add("tokshape", st, cs, "tree", 5)
+			add("tokshape", st, cs, "ht link", 4)
+			add("root", st, cs, "tree", 5)
+			add("root", st, cs, "ht link", 5)
+		}
+		add("tokshape", st, "cs1", "tree t1", 4)
+		add("tokshape", st, "cs0", "ht defer", 4)
+		add("root", st, "cs1", "tree late", 5)
+	}
 	// content-store capacity 0 / 1 / 2 x cache mode x strategy
 	for _, st := range []string{"br", "mc"} {
 		add("cache", st, "cs1", "tree cap=1", 5)
@@ -1043,7 +1191,7 @@ func main() {
 			if th {
 				return 25 * time.Minute
 			}
-			return 95 * time.Second
+			return 90 * time.Second
 		},
 		Extra: func(rep *report.Reporter, cov report.Coverage) {
 			if os.Getenv("VERIF_ONLY") != "" {
@@ -1056,14 +1204,15 @@ func main() {
 			cov["oracle_branches_exercised"] = o
 			cov["dispatch_agreement_pass"] = dispatchPass(rep)
 		},
-		Rule: "BFS over histories of Interest arrivals I(face,name,CanBePrefix,MustBeFresh,nonce fresh|repeated,lifetime 4s|500ms|0,PIT token), Data arrivals D(face,name,freshness,token none|echo of a live upstream token|foreign 6-byte|4-byte) and clock steps T(dt)+reaper tick / A(dt) without tick, on one real fw.Thread with real PIT-CS, dead nonce list, FIB (tree, hash table) and strategies (best-route, multicast), cache on/off/admit-only, content-store capacity 1024 (never evicts) and 0|1|2 on the cache alphabet; focused alphabets (names, tokens, flags, time, cache, burst = B(face,k): k in {101,250} Interests with distinct names and the 500 ms lifetime arriving in one step); recording faces that read what they were handed (PIT token, bytes) at the SendPacket call, or only after the pipeline call returned ('late'), or - backlogged faces, 'defer' - only at the next clock step, the token read THEN being the one the upstream can echo and the Data copy read THEN being judged again; after every transition every SendPacket is compared with a three-valued reference of pending Interests and the reference is cross-checked against the white-box PIT dump; states de-duplicated on reference + white-box dump (clock-relative, tokens renamed by entry, nonces by equality with the last nonce per name)",
+		Rule: "BFS over histories of Interest arrivals I(face,name,CanBePrefix,MustBeFresh,nonce fresh|repeated,lifetime 4s|500ms|0,PIT token), Data arrivals D(face,name,freshness,token none|echo of a live upstream token|foreign 6-byte|4-byte; alphabet tokshape: every token shape - absent, empty field, fixed bytes of length 1..8 and 32, 6 bytes never issued / naming another thread / naming no thread, a live token extended to 7, 8, 32 bytes or cut to 5, 4 bytes - against downstream tokens of 1, 2, 6 (own-looking), 8, 32 bytes) and clock steps T(dt)+reaper tick / A(dt) without tick, on one real fw.Thread with real PIT-CS, dead nonce list, FIB (tree, hash table) and strategies (best-route, multicast), cache on/off/admit-only, content-store capacity 1024 (never evicts) and 0|1|2 on the cache alphabet; focused alphabets (names, tokens, flags, time, cache, burst = B(face,k): k in {101,250} Interests with distinct names and the 500 ms lifetime arriving in one step); recording faces that read what they were handed (PIT token, bytes) at the SendPacket call, or only after the pipeline call returned ('late'), or - backlogged faces, 'defer' - only at the next clock step, the token read THEN being the one the upstream can echo and the Data copy read THEN being judged again; after every transition every SendPacket is compared with a three-valued reference of pending Interests and the reference is cross-checked against the white-box PIT dump; states de-duplicated on reference + white-box dump (clock-relative, tokens renamed by entry, nonces by equality with the last nonce per name)",
 		Assumptions: []string{
+			"'a token in this forwarder's format' = exactly six bytes; it echoes a token this forwarder attached only if its first two bytes name the driven thread and the last four are an entry token that left on a forwarded Interest; six bytes naming another thread satisfy nothing; every other length (also 7..32 bytes that START with a live token) is matched by name",
 			"faces are simulated at the dispatch.Face seam: a received frame is turned into defn.Pkt exactly as NDNLPLinkService.handleIncomingFrame + dispatchInterest/dispatchData do (copied field by field in verif/harness/fwsim), one forwarding thread (id 0)",
 			"the clock is virtual (verif/shim/vtime) and PIT tokens come from verif/shim/vrand; the reaper runs only in T(dt) steps, once, after the clock moved",
 			"equal canonical state (reference records + live tokens + per-name nonce/dead-nonce status + private PIT-CS dump with queue priorities, all times relative to now) implies equal futures; out-record ages are saturated at the 500 ms suppression window, expired times at 0",
-			"where the property leaves a choice the observed behaviour is adopted into the reference: whether an Interest repeating an already seen (name, nonce) is recorded; whether a record past its own lifetime still exists; whether Data echoing a token that was not attached to the currently pending Interest of that entry matches",
+			"where the property leaves a choice the observed behaviour is adopted into the reference: whether an Interest of a non-local face whose cache answer (/localhost Data matching '/' + CanBePrefix) a scope rule withholds counts as answered or stays pending; whether an Interest repeating an already seen (name, nonce) is recorded; whether a record past its own lifetime still exists; whether Data echoing a token that was not attached to the currently pending Interest of that entry matches",
 			"a record whose own lifetime elapsed may or may not receive a copy until the latest lifetime among all Interests that ever arrived for its PIT entry has elapsed and the reaper has run twice since (the 'shortly after' of C08); from then on a copy, or a surviving in-record, is a C01.only violation",
-			"name universe {/a,/a/b,/a/b/c,/localhost/x} (+ /a/z0../a/z249 in the burst alphabet); lifetimes {4 s default, 500 ms, explicit 0}; clock steps {100 ms, 600 ms, 5 s}; faces L1,L5 local, N2,N3,N4 non-local, A6 ad-hoc",
+			"name universe {/,/a,/a/b,/a/b/c,/localhost/x} (+ /a/z0../a/z249 in the burst alphabet; the zero-component name / is in the alphabets root, names, flags, cache, time and in the dispatch pass, with a default route so that it is forwarded); lifetimes {4 s default, 500 ms, explicit 0}; clock steps {100 ms, 600 ms, 5 s}; faces L1,L5 local, N2,N3,N4 non-local, A6 ad-hoc",
 			"a face keeps the dispatch.OutPkt it was handed the way the real link service keeps it in its send queue (the struct value; nothing it points to is copied) and may serialise it any time after SendPacket returned: at once, when the pipeline call has returned ('late'), or at the next clock step ('defer', all faces backlogged; until then the upstream cannot echo the token). 'The PIT token this forwarder attached when it forwarded that Interest' is the token the face reads when it serialises; a token that left attached to the Interests of several PIT entries makes an echoing Data satisfy each of them",
 		},
 	})
